@@ -495,6 +495,63 @@ rw_strcpy(char *d, const char *a)
 #define strlen rw_strlen
 #define strcpy rw_strcpy
 
+/* ---------------- V layer under GRgetattr's "value not read in yet" path (RW_ATTRS runs only): one attribute Vdata on disk whose
+   byte at ghost index g_k is g_at_disk; every call may fail */
+int    g_vs_n, g_vs_failed, g_vs_open;
+uint8  g_at_disk;
+int32  g_at_ref_asked;
+int32
+VSattach(HFILEID f, int32 vsid, const char *accesstype)
+{
+    (void)f;
+    H4V_CHECK(accesstype != NULL && accesstype[0] == 'r', "GRgetattr attaches the attribute Vdata for reading");
+    g_vs_n++;
+    g_at_ref_asked = vsid;
+    H4V_ND(int, vsattach_fails);
+    if (vsattach_fails) {
+        g_vs_failed = 1;
+        return FAIL;
+    }
+    g_vs_open++;
+    return 0x40007;
+}
+int
+VSsetfields(int32 vkey, const char *fields)
+{
+    H4V_CHECK(vkey == 0x40007 && fields != NULL, "VSsetfields on the attached attribute Vdata");
+    H4V_ND(int, vssetfields_fails);
+    if (vssetfields_fails) {
+        g_vs_failed = 1;
+        return FAIL;
+    }
+    return SUCCEED;
+}
+int32
+VSread(int32 vkey, uint8 buf[], int32 nelt, int32 interlace)
+{
+    (void)interlace;
+    H4V_CHECK(vkey == 0x40007 && buf != NULL && nelt >= 1, "VSread on the attached attribute Vdata");
+    H4V_ND(int, vsread_fails);
+    if (vsread_fails) {
+        g_vs_failed = 1;
+        return FAIL;
+    }
+    buf[g_k] = g_at_disk; /* (g_k < size of the value: the harness chooses it so) */
+    return nelt;
+}
+int32
+VSdetach(int32 vkey)
+{
+    H4V_CHECK(vkey == 0x40007 && g_vs_open >= 1, "VSdetach on the attached attribute Vdata");
+    g_vs_open--;
+    H4V_ND(int, vsdetach_fails);
+    if (vsdetach_fails) {
+        g_vs_failed = 1;
+        return FAIL;
+    }
+    return SUCCEED;
+}
+
 #include "mfgr.c"
 
 #undef strcmp
@@ -1347,5 +1404,47 @@ h_attr_reset_info(void)
     H4V_CHECK(r3 == SUCCEED && o_nt == oth_t && o_count == oth_n, "attr: the other attribute is intact");
     H4V_COVER(r1 == SUCCEED && which == 1, "attr_reset_info: second attribute re-set");
     H4V_CANARY("attr_reset_info end");
+}
+
+/* GRgetattr: the value is the cached one, or the one on disk when nothing is cached; a value that exists ONLY in memory (set and
+   not yet written out: data_modified) is never discarded, whatever its size relative to the cache threshold.  The threshold
+   (gr_ptr->attr_cache) is symbolic 1..16 here so that values below, AT and above it are all covered.
+   History invariant of the list (kept by GRsetattr: it caches a value iff its size is <= the threshold on the replace path,
+   < on the create path): data_modified ==> cached and size <= threshold. */
+void
+h_GRgetattr(void)
+{
+    mk_ghosts();
+    mk_attrs();
+    H4V_ND(int32, idx);
+    H4V_ND(int, cache);
+    H4V_ND(int, modified);
+    H4V_ND(uint8, diskbyte);
+    H4V_ASSUME(g_nat >= 1 && idx >= 0 && idx < g_nat && cache >= 1 && cache <= 16);
+    g_gr->attr_cache = (uint32)cache;
+    int32 size = g_at[idx].len * DFKNTsize((g_at[idx].nt | DFNT_NATIVE) & (~DFNT_LITEND));
+    H4V_ASSUME(g_k >= 0 && g_k < size && size <= AT_DATACAP);
+    H4V_ASSUME(!modified || (g_at[idx].data != NULL && size <= cache));
+    g_at[idx].data_modified = modified ? TRUE : FALSE;
+    g_at_disk = diskbyte;
+    g_vs_n = g_vs_failed = g_vs_open = 0;
+    int    cached0 = g_at[idx].data != NULL;
+    uint8  old_b   = cached0 ? ((uint8 *)g_at[idx].data)[g_k] : 0;
+    int    oth     = g_nat > 1 ? 1 - idx : -1;
+    void  *oth_d   = oth >= 0 ? g_at[oth].data : NULL;
+    uint8 *buf     = malloc(AT_DATACAP);
+    H4V_ASSUME(buf != NULL);
+    int r = GRgetattr(RW_RIID, idx, buf);
+    H4V_CHECK(g_vs_failed || r == SUCCEED, "GRgetattr succeeds unless the V layer fails");
+    H4V_CHECK(!cached0 || g_vs_n == 0, "GRgetattr: a cached value is not read from the file again");
+    H4V_CHECK(r != SUCCEED || buf[g_k] == (cached0 ? old_b : diskbyte), "C10 GRgetattr returns the cached value, or the stored one when nothing is cached");
+    H4V_CHECK(!modified || (g_at[idx].data != NULL && ((uint8 *)g_at[idx].data)[g_k] == old_b && g_at[idx].data_modified == TRUE),
+              "C10 GRgetattr never discards a value that exists only in memory (set, not yet written out)");
+    H4V_CHECK(g_vs_open == 0 || g_vs_failed, "GRgetattr detaches the attribute Vdata again");
+    H4V_CHECK(oth < 0 || g_at[oth].data == oth_d, "GRgetattr leaves the other attribute alone");
+    H4V_COVER(r == SUCCEED && modified && size == cache, "getattr: modified value of exactly the threshold size");
+    H4V_COVER(r == SUCCEED && !cached0 && size > cache, "getattr: large value read and dropped again");
+    H4V_COVER(r == FAIL && g_vs_failed, "getattr: V layer failure");
+    H4V_CANARY("GRgetattr end");
 }
 #endif
